@@ -295,6 +295,13 @@ macro_rules! adapter {
                 let c = s.clone();
                 (s.uuid().to_string(), c.uuid().to_string())
             }
+            /// UUID of a section of a section (ranges relative to the enclosing section), and the
+            /// number of records the inner section's iterator yields.
+            pub fn uuid_nested_section(text: &[u8], a: usize, b: usize, c: usize, d: usize) -> (String, usize) {
+                let m = pg::ProguardMapping::new(text);
+                let inner = m.section(a..b).section(c..d);
+                (inner.uuid().to_string(), inner.iter().count())
+            }
             /// Metadata answers asked twice and in a different order on one value.
             pub fn metadata_twice(text: &[u8]) -> ((bool, bool, NSummary), (bool, bool, NSummary)) {
                 let m = pg::ProguardMapping::new(text);
